@@ -76,15 +76,20 @@ Inductive pattern := PatE (e : pexpr) | PatS (l : list pstmt).
 (* ------------------------------------------------------------------ *)
 (** * 3. The matcher (pattern_match.py: match_name / match_e / match_stmt / match_stmts) *)
 
-(* Three places where the code deviates from "structurally matches the pattern".  [impl_quirks] is what
-   /repo does NOW; [spec_quirks] is the specification (MatchRel).  Flip a field of [impl_quirks] to [false]
-   when the corresponding line of pattern_match.py is repaired. *)
+(* Places where the code deviates (or deviated) from "structurally matches the pattern".  [impl_quirks] is
+   what /repo does NOW; [spec_quirks] is the specification (MatchRel).  Flip a field of [impl_quirks] when
+   the corresponding line of pattern_match.py changes; the check compares it with probes of the real code.
+     q_stride0  : `pat.dim == e.dim or not bool(pat.dim)` made stride(x, 0) a wildcard
+                  -- repaired in /repo 80472758 (`... or pat.dim is None`), now false
+     q_callargs : Call patterns: only the callee name is compared, pat.args ignored   (open finding F-C16-2)
+     q_wcfg     : WriteConfig: match_name called with (ir, pat) swapped, `_` not honoured
+                  -- repaired in /repo e0571e51 (`pat.config in ("_", name) and pat.field in ("_", field)`), now false *)
 Record quirks := {
-  q_stride0  : bool;   (* pattern_match.py:343  `pat.dim == e.dim or not bool(pat.dim)`: dim 0 is falsy => wildcard *)
-  q_callargs : bool;   (* pattern_match.py:285  Call: only the callee name is compared, pat.args ignored *)
-  q_wcfg     : bool    (* pattern_match.py:287  WriteConfig: match_name called with (ir, pat) swapped *)
+  q_stride0  : bool;
+  q_callargs : bool;
+  q_wcfg     : bool
 }.
-Definition impl_quirks : quirks := {| q_stride0 := true; q_callargs := true; q_wcfg := true |}.
+Definition impl_quirks : quirks := {| q_stride0 := false; q_callargs := true; q_wcfg := false |}.
 Definition spec_quirks : quirks := {| q_stride0 := false; q_callargs := false; q_wcfg := false |}.
 
 Definition hole_name : string := "_"%string.
